@@ -37,10 +37,14 @@ package db
 // file has now (other connections' commits change it).
 //@ ghost file_len bv64
 //@ ghost map_len bv64
+// file_byte(cc, o): the byte at offset o of the database file as of change counter cc.
+//@ smt filebytes
+//@ (declare-fun file_byte ((_ BitVec 32) (_ BitVec 64)) (_ BitVec 8))
 //@ extern (*golang.org/x/exp/mmap.ReaderAt).ReadAt
 //@   modifies M:bv8
 //@   ensures 0 <= r0 && r0 <= len(p)
 //@   ensures [range] err == nil <==> (0 <= off && off + len(p) <= map_len)
+//@   ensures [content] err == nil ==> (forall k int :: 0 <= k && k < len(p) ==> p[k] == file_byte(cc_now, off + k))
 
 //@ extern (*golang.org/x/exp/mmap.ReaderAt).Close
 //@   pure
@@ -123,6 +127,7 @@ package db
 //@   modifies M:bv8 alloc
 //@   requires f != nil && 0 <= pagesize && pagesize <= 65536
 //@   ensures [buffer] len(r0) == pagesize && fresh(r0)
+//@   ensures [content] err == nil ==> (forall k int :: 0 <= k && k < pagesize ==> r0[k] == file_byte(cc_now, (id - 1) * pagesize + k))
 //@   ensures [reach] 0 <= map_len && map_len <= 281474976710656 && 1 <= id && id <= 4294967295 && 1 <= pagesize && id * pagesize <= file_len ==> err == nil
 
 // newFilePager: must not disturb the locks other handles of this process hold on the file.
